@@ -112,7 +112,7 @@ pub fn check(sc: &Scenario, out: &RunOutput) -> OracleResult {
     // wire view at the listener: distinct SYNs in order of first delivery
     let mut syn_arrival: Vec<(T, usize, SocketAddr, u16, u16)> = vec![]; // (t, idx, src, syn id, syn seq)
     let mut seen_syn: HashSet<(SocketAddr, u16)> = HashSet::new();
-    let mut resets: Vec<(T, SocketAddr, u16, u16)> = vec![]; // (t, dst, conn id, ack)
+    let mut resets: Vec<(T, SocketAddr, u16, u16, usize)> = vec![]; // (t, dst, conn id, ack, backlog just before)
     let mut created_at_l: Vec<(T, usize, SocketAddr, u16)> = vec![]; // (t, idx, remote, id_send)
     let mut max_cached = 0usize;
     let mut last_cached = 0usize;
@@ -133,7 +133,10 @@ pub fn check(sc: &Scenario, out: &RunOutput) -> OracleResult {
             Ev::Emit(e) if e.src == l && e.real => {
                 if let Some(p) = &e.pkt {
                     if p.typ == codec::ST_RESET {
-                        resets.push((*t, e.dst, p.conn_id, p.ack));
+                        // (the backlog as of the last socket snapshot before this emission, in
+                        // log order: later snapshots of the same instant may already show a
+                        // request handed over)
+                        resets.push((*t, e.dst, p.conn_id, p.ack, last_cached));
                     }
                 }
             }
@@ -153,20 +156,10 @@ pub fn check(sc: &Scenario, out: &RunOutput) -> OracleResult {
     // (4) excess refused with a reset - and only excess: a RESET answering a SYN is emitted only
     // while the backlog is full
     let mut refused = 0u64;
-    for (t, dst, cid, ack) in &resets {
+    for (t, dst, cid, ack, cached_then) in &resets {
         let Some((_, _, _, _, _)) = syn_arrival.iter().find(|(_, _, src, id, seq)| src == dst && id == cid && seq == ack) else { continue };
         refused += 1;
-        // the backlog as of the snapshots around this instant
-        let cached_then = h
-            .evs
-            .iter()
-            .filter(|(te, _)| *te <= *t)
-            .filter_map(|(_, ev)| match ev {
-                Ev::Probe(ProbeEvent::Socket(s)) if s.local == l => Some(s.cached_syns),
-                _ => None,
-            })
-            .last()
-            .unwrap_or(0);
+        let cached_then = *cached_then;
         if cached_then < BACKLOG {
             res.violate(P, "reset-although-backlog-not-full", *t, format!("the listener refused the SYN of {} (connection id {}) with a RESET while it held only {} of {} unaccepted requests", dst, cid, cached_then, BACKLOG));
         }
@@ -177,7 +170,7 @@ pub fn check(sc: &Scenario, out: &RunOutput) -> OracleResult {
     // accepted, is still queued, or was refused - none vanished
     if loss_free && !dup_syn {
         let accepted: HashSet<(SocketAddr, u16)> = created_at_l.iter().map(|(_, _, r, id)| (*r, *id)).collect();
-        let refused_set: HashSet<(SocketAddr, u16)> = resets.iter().map(|(_, d, c, _)| (*d, *c)).collect();
+        let refused_set: HashSet<(SocketAddr, u16)> = resets.iter().map(|(_, d, c, _, _)| (*d, *c)).collect();
         let lost: Vec<&(T, usize, SocketAddr, u16, u16)> = syn_arrival.iter().filter(|(_, _, src, id, _)| !accepted.contains(&(*src, *id)) && !refused_set.contains(&(*src, *id))).collect();
         if lost.len() > last_cached {
             let (t, _, src, id, _) = lost[0];
